@@ -3,8 +3,12 @@ package main
 import (
 	"fmt"
 	"go/ast"
+	"go/printer"
 	"go/token"
+	"os"
+	"path/filepath"
 	"strconv"
+	"strings"
 )
 
 // The regexp source strings of the token rules in martian/syntax/tokenizer.go:
@@ -75,6 +79,7 @@ func init() {
 		{"tokIntRegex", "tokIntRule", `^-?0*\d{1,19}\b`},
 		{"tokFloatRegex", "tokFloatRule", `^-?\d+(?:(?:\.\d+)?[eE][+-]?|\.)\d+\b`},
 		{"tokStringRegex", "tokStringRule", `^"(?:[^\\"]|\\(?:[abfnrtv\\"]|[0-7]{3}|x[[:xdigit:]]{2}|u[[:xdigit:]]{4}|U[[:xdigit:]]{8}))*"`},
+		{"tokIdRegex", "tokIdRule", `^_?[[:alpha:]]\w*\b`},
 	} {
 		r := r
 		addFact(fact{
@@ -90,4 +95,345 @@ func init() {
 			},
 		})
 	}
+}
+
+// ---------- the whole tokenizer: token ids and the first-byte switch of keywordToken ----------
+
+func leanNatList(xs []int) string {
+	o := make([]string, len(xs))
+	for i, x := range xs {
+		o[i] = "0x" + strconv.FormatInt(int64(x), 16)
+	}
+	return "[" + strings.Join(o, ", ") + "]"
+}
+
+type tokId struct {
+	Name string
+	Id   int
+}
+
+// tokenIds: every `const NAME = <int >= 57346>` of grammar.go, in source order.
+func tokenIds(repo string) ([]tokId, error) {
+	_, f, err := parseFile(repo, "martian/syntax/grammar.go")
+	if err != nil {
+		return nil, err
+	}
+	var ids []tokId
+	for _, d := range f.Decls {
+		gd, ok := d.(*ast.GenDecl)
+		if !ok || gd.Tok != token.CONST {
+			continue
+		}
+		for _, sp := range gd.Specs {
+			vs, ok := sp.(*ast.ValueSpec)
+			if !ok || len(vs.Names) != 1 || len(vs.Values) != 1 || vs.Type != nil {
+				continue
+			}
+			lit, ok := vs.Values[0].(*ast.BasicLit)
+			if !ok || lit.Kind != token.INT {
+				continue
+			}
+			v, err := strconv.Atoi(lit.Value)
+			if err != nil || v < 57346 {
+				continue
+			}
+			ids = append(ids, tokId{vs.Names[0].Name, v})
+		}
+	}
+	if len(ids) == 0 {
+		return nil, fmt.Errorf("no token constants (const NAME = 57346...) in grammar.go")
+	}
+	return ids, nil
+}
+
+func leanTokIds(ids []tokId) string {
+	o := make([]string, len(ids))
+	for i, t := range ids {
+		o[i] = fmt.Sprintf("(%s, %d)", leanStr(t.Name), t.Id)
+	}
+	return "[" + strings.Join(o, ",\n   ") + "]"
+}
+
+// lexerStringConsts: the package-level string constants of package syntax
+// (`name = "text"`, also inside a const group, also `name = T("text")`).
+func lexerStringConsts(repo string) (map[string]string, error) {
+	dir := filepath.Join(repo, "martian/syntax")
+	ents, err := os.ReadDir(dir)
+	if err != nil {
+		return nil, err
+	}
+	res := map[string]string{}
+	for _, e := range ents {
+		n := e.Name()
+		if e.IsDir() || !strings.HasSuffix(n, ".go") || strings.HasSuffix(n, "_test.go") {
+			continue
+		}
+		_, f, err := parseFile(repo, filepath.Join("martian/syntax", n))
+		if err != nil {
+			return nil, err
+		}
+		for _, d := range f.Decls {
+			gd, ok := d.(*ast.GenDecl)
+			if !ok || gd.Tok != token.CONST {
+				continue
+			}
+			for _, sp := range gd.Specs {
+				vs, ok := sp.(*ast.ValueSpec)
+				if !ok || len(vs.Names) != len(vs.Values) {
+					continue
+				}
+				for i, nm := range vs.Names {
+					v := vs.Values[i]
+					if call, ok := v.(*ast.CallExpr); ok && len(call.Args) == 1 {
+						if _, isId := call.Fun.(*ast.Ident); isId {
+							v = call.Args[0]
+						}
+					}
+					if s, err := constString(v); err == nil {
+						res[nm.Name] = s
+					}
+				}
+			}
+		}
+	}
+	return res, nil
+}
+
+func nodeText(n ast.Node) string {
+	var sb strings.Builder
+	if err := printer.Fprint(&sb, token.NewFileSet(), n); err != nil {
+		return "<unprintable>"
+	}
+	return strings.Join(strings.Fields(sb.String()), " ")
+}
+
+func stmtsText(ss []ast.Stmt) string {
+	o := make([]string, len(ss))
+	for i, s := range ss {
+		o[i] = nodeText(s)
+	}
+	return strings.Join(o, " ; ")
+}
+
+// the numeric clause of keywordToken, as the Lean model `Martian.Lexer.numTok`
+// was written for it (comments do not count)
+const tokNumberClause = `if v, id := tokFloatRule(b); len(v) > 0 { if _, err := tryParseFloat(v); err != nil { return v, INVALID } return v, id }` +
+	` ; v, id := tokIntRule(b)` +
+	` ; if len(v) > 0 { if _, err := tryParseInt(v); err != "" { return v, INVALID } }` +
+	` ; return v, id`
+
+type tokKeyword struct {
+	Text  string
+	Token string
+}
+
+type tokClause struct {
+	Bytes    []int
+	Kind     string
+	Keywords []tokKeyword
+}
+
+// keywordTest: `bytesPrefixString(b, X)` -> the text of X
+func keywordTest(e ast.Expr, consts map[string]string) (string, error) {
+	call, ok := e.(*ast.CallExpr)
+	if !ok || len(call.Args) != 2 {
+		return "", fmt.Errorf("not a bytesPrefixString call: %s", nodeText(e))
+	}
+	if id, ok := call.Fun.(*ast.Ident); !ok || id.Name != "bytesPrefixString" {
+		return "", fmt.Errorf("not a bytesPrefixString call: %s", nodeText(e))
+	}
+	if id, ok := call.Args[0].(*ast.Ident); !ok || id.Name != "b" {
+		return "", fmt.Errorf("bytesPrefixString not applied to b: %s", nodeText(e))
+	}
+	if id, ok := call.Args[1].(*ast.Ident); ok {
+		s, ok := consts[id.Name]
+		if !ok {
+			return "", fmt.Errorf("keyword constant %s not found among the string constants of package syntax", id.Name)
+		}
+		return s, nil
+	}
+	return constString(call.Args[1])
+}
+
+func keywordClause(body []ast.Stmt, consts map[string]string) ([]tokKeyword, error) {
+	var kws []tokKeyword
+	for i, st := range body {
+		switch s := st.(type) {
+		case *ast.IfStmt:
+			// if v := bytesPrefixString(b, X); len(v) > 0 { return v, T }
+			as, ok := s.Init.(*ast.AssignStmt)
+			if !ok || as.Tok != token.DEFINE || len(as.Lhs) != 1 || len(as.Rhs) != 1 || nodeText(as.Lhs[0]) != "v" ||
+				nodeText(s.Cond) != "len(v) > 0" || s.Else != nil || len(s.Body.List) != 1 {
+				return nil, fmt.Errorf("unexpected keyword test: %s", nodeText(s))
+			}
+			ret, ok := s.Body.List[0].(*ast.ReturnStmt)
+			if !ok || len(ret.Results) != 2 || nodeText(ret.Results[0]) != "v" {
+				return nil, fmt.Errorf("unexpected keyword test: %s", nodeText(s))
+			}
+			tok, ok := ret.Results[1].(*ast.Ident)
+			if !ok {
+				return nil, fmt.Errorf("unexpected keyword token: %s", nodeText(s))
+			}
+			text, err := keywordTest(as.Rhs[0], consts)
+			if err != nil {
+				return nil, err
+			}
+			kws = append(kws, tokKeyword{text, tok.Name})
+		case *ast.ReturnStmt:
+			// return bytesPrefixString(b, X), T   (last statement)
+			if i != len(body)-1 || len(s.Results) != 2 {
+				return nil, fmt.Errorf("unexpected return: %s", nodeText(s))
+			}
+			tok, ok := s.Results[1].(*ast.Ident)
+			if !ok {
+				return nil, fmt.Errorf("unexpected keyword token: %s", nodeText(s))
+			}
+			text, err := keywordTest(s.Results[0], consts)
+			if err != nil {
+				return nil, err
+			}
+			kws = append(kws, tokKeyword{text, tok.Name})
+		default:
+			return nil, fmt.Errorf("unexpected statement in a keyword clause: %s", nodeText(st))
+		}
+	}
+	if len(kws) == 0 {
+		return nil, fmt.Errorf("empty clause")
+	}
+	for _, k := range kws {
+		if k.Text == "" {
+			return nil, fmt.Errorf("empty keyword for token %s", k.Token)
+		}
+		for i := 0; i < len(k.Text); i++ {
+			// bytesPrefixString compares b[i] with byte(r) for the RUNES r of the keyword
+			if k.Text[i] >= 0x80 {
+				return nil, fmt.Errorf("keyword %q is not ASCII", k.Text)
+			}
+		}
+	}
+	return kws, nil
+}
+
+// tokenSwitch: the `switch r` of keywordToken, clause by clause.  The frame
+// around it (`if len(b) > 0 { r := b[0]; switch r {…}; if r > utf8.RuneSelf
+// { return leadingSpace(b) } }; return nil, 0`) is checked too.
+func tokenSwitch(repo string) ([]tokClause, error) {
+	_, f, err := parseFile(repo, "martian/syntax/tokenizer.go")
+	if err != nil {
+		return nil, err
+	}
+	fd := findFunc(f, "keywordToken")
+	if fd == nil || fd.Body == nil {
+		return nil, fmt.Errorf("func keywordToken not found")
+	}
+	if len(fd.Body.List) != 2 || nodeText(fd.Body.List[1]) != "return nil, 0" {
+		return nil, fmt.Errorf("keywordToken: unexpected frame")
+	}
+	outer, ok := fd.Body.List[0].(*ast.IfStmt)
+	if !ok || outer.Init != nil || outer.Else != nil || nodeText(outer.Cond) != "len(b) > 0" || len(outer.Body.List) != 3 ||
+		nodeText(outer.Body.List[0]) != "r := b[0]" ||
+		nodeText(outer.Body.List[2]) != "if r > utf8.RuneSelf { return leadingSpace(b) }" {
+		return nil, fmt.Errorf("keywordToken: unexpected frame around the switch")
+	}
+	sw, ok := outer.Body.List[1].(*ast.SwitchStmt)
+	if !ok || sw.Init != nil || nodeText(sw.Tag) != "r" {
+		return nil, fmt.Errorf("keywordToken: no `switch r`")
+	}
+	consts, err := lexerStringConsts(repo)
+	if err != nil {
+		return nil, err
+	}
+	var res []tokClause
+	seen := map[int]bool{}
+	for _, st := range sw.Body.List {
+		cc, ok := st.(*ast.CaseClause)
+		if !ok || len(cc.List) == 0 {
+			return nil, fmt.Errorf("keywordToken: default clause / unexpected statement in the switch")
+		}
+		var cl tokClause
+		for _, e := range cc.List {
+			lit, ok := e.(*ast.BasicLit)
+			if !ok || lit.Kind != token.CHAR {
+				return nil, fmt.Errorf("case value %s is not a character literal", nodeText(e))
+			}
+			v, _, _, err := strconv.UnquoteChar(lit.Value[1:len(lit.Value)-1], '\'')
+			if err != nil || v < 0 || v > 255 {
+				return nil, fmt.Errorf("case value %s is not a byte", lit.Value)
+			}
+			if seen[int(v)] {
+				return nil, fmt.Errorf("duplicate case value %s", lit.Value)
+			}
+			seen[int(v)] = true
+			cl.Bytes = append(cl.Bytes, int(v))
+		}
+		txt := stmtsText(cc.Body)
+		switch txt {
+		case "return b[:1:1], int(r)":
+			cl.Kind = "punct"
+		case "return tokStringRule(b)":
+			cl.Kind = "string"
+		case "return tokCommentRule(b)":
+			cl.Kind = "comment"
+		case "return leadingSpace(b)":
+			cl.Kind = "space"
+		case "return tokIdRule(b)":
+			cl.Kind = "ident"
+		case tokNumberClause:
+			cl.Kind = "number"
+		default:
+			kws, err := keywordClause(cc.Body, consts)
+			if err != nil {
+				return nil, fmt.Errorf("clause %s: %v", nodeText(cc.List[0]), err)
+			}
+			for _, v := range cl.Bytes {
+				// a clause that falls out of the switch reaches `if r > utf8.RuneSelf`
+				if v >= 0x80 {
+					return nil, fmt.Errorf("keyword clause for the non-ASCII byte 0x%02x", v)
+				}
+			}
+			cl.Kind = "keywords"
+			cl.Keywords = kws
+		}
+		res = append(res, cl)
+	}
+	return res, nil
+}
+
+func leanTokSwitch(cls []tokClause) string {
+	o := make([]string, len(cls))
+	for i, c := range cls {
+		kws := make([]string, len(c.Keywords))
+		for j, k := range c.Keywords {
+			kws[j] = "(" + leanStr(k.Text) + ", " + leanStr(k.Token) + ")"
+		}
+		o[i] = "(" + leanNatList(c.Bytes) + ", " + leanStr(c.Kind) + ", [" + strings.Join(kws, ", ") + "])"
+	}
+	return "[" + strings.Join(o, ",\n   ") + "]"
+}
+
+func init() {
+	addFact(fact{
+		name:   "tokIds",
+		leanTy: "List (String × Nat)",
+		deflt:  tokIdsDefault,
+		extract: func(repo string) (string, interface{}, error) {
+			ids, err := tokenIds(repo)
+			if err != nil {
+				return "", nil, err
+			}
+			return leanTokIds(ids), ids, nil
+		},
+	})
+	addFact(fact{
+		name:   "tokSwitch",
+		leanTy: "List (List Nat × String × List (String × String))",
+		deflt:  tokSwitchDefault,
+		extract: func(repo string) (string, interface{}, error) {
+			cls, err := tokenSwitch(repo)
+			if err != nil {
+				return "", nil, err
+			}
+			return leanTokSwitch(cls), cls, nil
+		},
+	})
 }
